@@ -225,3 +225,79 @@ def fidelity(tier, seed):
     """A-FRONT guard: THDM a_mu functions and getters, interpreter (float mode) vs compiled real code on real models"""
     from gm2v import fidelity as _fid
     return _fid.thdm_model_guard(seed=seed)
+
+# ------------------------------------------------------------------------------------------------ THDM input: which basis, or "undecidable basis"
+def replay_basis(model, wd):
+    """the REAL program on the shipped THDM example turned into a gauge-basis point, with each mass-basis quantity added in turn: every mixture must be refused (exit 1, no a_mu)"""
+    from gm2v import native
+    from gm2v.world import REPO
+    import subprocess, os
+    exe = native.build_gm2calc()
+    base = ("Block GM2CalcConfig\n 0 0\n 3 %d\nBlock SMINPUTS\n 3 0.1184\n 4 91.1876\n 5 4.18\n 6 173.34\n 7 1.777\n 9 80.385\n 13 0.1056583715\n"
+            "Block MINPAR\n 3 3\n 11 4.8\n 12 0.3\n 13 0.2\n 14 -0.1\n 15 0.1\n 16 0\n 17 0\n 18 40000\n 24 2\n%sBlock MASS\n%s")
+    bad = []
+    n = 0
+    for force in (0, 1):
+        for what, minpar, mass in (('sin(beta-alpha) in MINPAR 20', ' 20 0.999\n', ''), ('mh', '', ' 25 125\n'), ('mH', '', ' 35 400\n'), ('mA', '', ' 36 420\n'), ('mH+', '', ' 37 440\n')):
+            r = subprocess.run([exe, '--thdm-input-file=-'], input=base % (force, minpar, mass), capture_output=True, text=True, timeout=60)
+            n += 1
+            if r.returncode == 0:
+                bad.append('gauge-basis point plus %s (force-output %d): exit 0, output %s' % (what, force, r.stdout.strip()[:40]))
+        r = subprocess.run([exe, '--thdm-input-file=-'], input=base % (force, '', ''), capture_output=True, text=True, timeout=60)
+        if r.returncode != 0:
+            bad.append('pure gauge-basis point refused: ' + r.stderr.strip()[:80])
+    return bool(bad), '%d mixed inputs, %d out of contract: %s' % (n, len(bad), ' || '.join(bad[:3]))
+
+@obligation('C16.thdm.reader.basis_selection', fns=[('src/gm2calc.cpp', 'THDM_reader::operator()')], replay=replay_basis)
+def _(ctx):
+    """ensures for ALL values read into the two basis structs (fill() by contract): with has_masses := (mh, mH, mA, mH+, sin(beta-alpha)) != 0 somewhere and
+    has_lambdas := (lambda_1..5) != 0 somewhere, the program builds the model from the mass basis iff has_masses && !has_lambdas, from the gauge basis iff
+    !has_masses && has_lambdas, and throws EInvalidInput ("undecidable basis") in every other case; force_output and running_couplings are handed on unchanged"""
+    fds = [f for f in ctx.w.find('operator()', 'src/gm2calc.cpp') if f.cls == 'THDM_reader']
+    if len(fds) != 1:
+        ctx.record('extraction', ERROR, 'B', 0, '%d definitions of THDM_reader::operator()' % len(fds))
+        return
+    rec = []
+    def fill(it, a, t):
+        o = a[0]
+        if isinstance(o, Obj) and o.cls in ('Mass_basis', 'Gauge_basis'):
+            new = it.new_object(o.cls, symbolic_fields(None, prefix=o.cls + '.'))
+            o.f.update(new.f)
+        return None
+    def ctor(it, a, t):
+        rec.append((a[0].cls if isinstance(a[0], Obj) else str(a[0]), a[2] if len(a) > 2 else None))
+        return None
+    it = Interp(ctx.w, mode='sym', stubs={'GM2_slha_io::fill': fill, 'fill': fill, 'THDM::THDM': ctor})
+    io = Obj('GM2_slha_io', {})
+    fo, rc = z3.Bool('force_output'), z3.Bool('running_couplings')
+    def thunk():
+        del rec[:]
+        opts = it.new_object('Config_options')
+        opts.f['force_output'], opts.f['running_couplings'] = fo, rc
+        it.invoke(fds[0], [io, opts], Obj('THDM_reader', {}))
+        return list(rec)
+    ps = it.run_paths(thunk, max_paths=4000)
+    ctx.merge_rules(it)
+    R = lambda n: z3.Real(n)
+    has_m = z3.Or(*[R('Mass_basis.' + n) != 0 for n in ('mh', 'mH', 'mA', 'mHp', 'sin_beta_minus_alpha')])
+    has_l = z3.Or(*[R('Gauge_basis.lambda(%d)' % i) != 0 for i in range(5)])
+    spec = {'Mass_basis': z3.And(has_m, z3.Not(has_l)), 'Gauge_basis': z3.And(z3.Not(has_m), has_l)}
+    spec['reject'] = z3.Not(z3.Or(spec['Mass_basis'], spec['Gauge_basis']))
+    seen = set()
+    for k, (s, r, e) in enumerate(ps):
+        if e is not None:
+            out = 'reject' if e.cls == 'EInvalidInput' else 'exception ' + e.cls
+        elif r and len(r) == 1:
+            out = r[0][0]
+        else:
+            out = 'constructs %s' % (r,)
+        if out not in spec:
+            ctx.record('path%d' % k, FAILED, 'B', 0, 'outcome %s is not one of: mass basis, gauge basis, EInvalidInput' % out)
+            continue
+        seen.add(out)
+        ctx.prove('path%d.%s' % (k, out), list(s.pc) + list(s.axioms), spec[out], check_vacuity=False)
+        if out != 'reject':
+            cfg = r[0][1]
+            ok = isinstance(cfg, Obj) and is_sym(cfg.f.get('force_output')) and z3.eq(cfg.f['force_output'], fo) and is_sym(cfg.f.get('running_couplings')) and z3.eq(cfg.f['running_couplings'], rc)
+            ctx.record('path%d.%s.config' % (k, out), PROVED if ok else FAILED, 'B', 0, 'force_output and running_couplings handed to the constructor unchanged')
+    ctx.record('outcomes', PROVED if seen == {'Mass_basis', 'Gauge_basis', 'reject'} else FAILED, 'B', 0, 'outcomes reached: %s' % sorted(seen))
